@@ -295,3 +295,27 @@ pub fn block_queue(cells: usize, min_block: usize, cell_work: u32) -> bool {
     let g = out.into_inner().unwrap();
     g.windows(2).all(|w| w[0].0 < w[1].0)
 }
+
+/// The caller thread itself blocks: detached jobs (`rayon::spawn`) send through a bounded channel,
+/// the caller receives. The senders block when the channel is full, the caller when it is empty.
+pub fn spawn_and_recv(jobs: usize, per_job: usize) -> u64 {
+    let (tx, rx) = mpsc::sync_channel::<u64>(1);
+    for j in 0..jobs {
+        let tx = tx.clone();
+        rayon::spawn(move || {
+            for i in 0..per_job {
+                tx.send(work((j * per_job + i) as u64, 6) & 0xff).unwrap();
+            }
+        });
+    }
+    drop(tx);
+    let mut s = 0u64;
+    while let Ok(v) = rx.recv() {
+        s += v;
+    }
+    s
+}
+
+pub fn spawn_and_recv_expected(jobs: usize, per_job: usize) -> u64 {
+    (0..jobs * per_job).map(|k| work(k as u64, 6) & 0xff).sum()
+}
